@@ -32,3 +32,9 @@ Theorem C02_alternatives_limits : forall d s p acc egr rs total,
   forall r, In r rs -> limits_ok_b d s p r = true.
 Proof. intros d s p acc egr rs total H1 H2 H3 H r Hr. exact (proj1 (proj2 (alternatives_all_ok d s p acc egr rs total H1 H2 H3 H r Hr))). Qed.
 Print Assumptions C02_alternatives_limits.
+
+(* the full statement, assembled *)
+From TrV Require Import Proofs.Assemble.
+Theorem C02_full : C02_full_statement.
+Proof. exact C02_assembled. Qed.
+Print Assumptions C02_full.
